@@ -257,7 +257,7 @@ static void probes_cc(void)
 /* E2 layers                                                                */
 /* ======================================================================== */
 
-struct layer { const char *name; int n; uint8_t map[256]; int npre; uint8_t pre[64]; int depth[2]; int probe; };
+struct layer { const char *name; int n; uint16_t map[256]; int npre; uint16_t pre[64]; int depth[2]; int probe; };
 #define MAXLY 12
 static struct layer LY[MAXLY]; static int NLY;
 
@@ -351,7 +351,7 @@ static void build_stories(void)
         s = story_new("TOP: BTT, AIT, MPT, MPT-EX, two pages", 1, X_TOPNAV | X_TITLE | X_TOPINDEX | X_LOP);
         STP(s, P_H1F0, P_BTT_R1, P_BTT_R21, P_H17C, P_AIT_R1, P_H17D, P_MPT_R1, P_H17E, P_MPX_R1, P_H100E, P_R1_TEXT, P_H101, P_R1_ATTR, P_H1FF);
         s = story_new("EACEM trigger page 1E7 and a MIP classified trigger page", 1, X_TRIGGER);
-        STP(s, P_H1E7, P_TRIG_A, P_H1FF); st_l(s, "empty frame"); STP(s, P_H1E7, P_TRIG_B, P_H1FF, P_H1E7, P_TRIG_C, P_H1FF, P_H1E7, P_TRIG_B, P_H1FF);
+        STP(s, P_H1E7, P_TRIG_A, P_H1FF); st_l(s, "empty frame"); STP(s, P_H1E7, P_TRIG_B, P_H1FF, P_H1E7, P_TRIG_C, P_H1FF, P_H1E7, P_TRIG_B, P_H1FF, P_H1E7, P_TRIG_D, P_H1FF, P_H1E7, P_TRIG_E, P_H1FF);
         STP(s, P_H1FD, P_MIP_R11, P_H1FF, P_H17D, P_TRIG_A, P_H1FF); st_l(s, "300 regular empty frames");
         s = story_new("local enhancement, X/26..M/29 designations", 1, X_LOP);
         STP(s, P_H100E, P_R1_TEXT, P_X26_0L, P_X26_1, P_X26_2, P_H1FF, P_H100E, P_R1_ATTR, P_X26_15, P_X26_BAD, P_X27_0, P_X27_1, P_X27_4, P_X28_0, P_X28_1, P_X28_4,
@@ -699,7 +699,7 @@ static void line_case(uint64_t idx, void *arg)
 
 /* ---- growth bound ----------------------------------------------------------- */
 
-#define NGROW 20
+#define NGROW 21
 static int GL[NGROW]; static int grow_len;
 
 static void build_growth(void)
@@ -708,7 +708,7 @@ static void build_growth(void)
                 "H100+erase", "row1 text+links", "H1FF(filler)", "H17A", "DRCS row1", "H1FD(MIP)", "MIP row11 (16A..18F: GPOP,TOP,DRCS,POP,trigger,EPG...)",
                 "H1E7(trigger,national 7)", "trigger B (EACEM deferred, checksum)", "X/26/0 (POP object, DRCS, chars)", "8/30/1", "8/30/1 (other network)",
                 "vbi_channel_switched", "40 regular empty frames", "F1 RU2", "F1 text 36 chars", "F1 CR", "ITV string 1 in T2 + CR", "XDS packet: current title 32",
-                "fetch cached pages L3.5 25 rows nav" };
+                "fetch cached pages L3.5 25 rows nav", "trigger D (EACEM deferred 115 days)" };
         for (int i = 0; i < NGROW; i++) GL[i] = letter_by_name(names[i]);
 }
 
@@ -731,12 +731,25 @@ static void growth_run(const short *seq, int n, const char *what)
                 if (rep % 3 == 0) growth_measure(&g[rep / 3 - 1]);
         }
         long d1 = (long) g[1].bytes - (long) g[0].bytes, d2 = (long) g[2].bytes - (long) g[1].bytes;
-        if (d1 > 0 && d1 == d2) {
+        if (getenv("C01_GROWTH_DEBUG")) fprintf(stderr, "GROWTH %zu %zu %zu | %s\n", g[0].bytes, g[1].bytes, g[2].bytes, what);
+        if (d1 > 0 && d2 > 0) {
+                /* Nine repetitions can also be the filling of something bounded (deferred triggers waiting for their fire time,
+                 * a list with a cap): growth without bound must still be there after 99 / 198 / 297
+                 * repetitions (36 s and more of decoder time).  Otherwise it saturates and is only counted. */
+                for (int rep = 10; rep <= 297; rep++) {
+                        acct_epoch = rep;
+                        for (int i = 0; i < n; i++) do_letter(seq[i]);
+                        if (rep % 99 == 0) growth_measure(&g[rep / 99 - 1]);
+                }
+                d1 = (long) g[1].bytes - (long) g[0].bytes; d2 = (long) g[2].bytes - (long) g[1].bytes;
+                if (!(d1 > 0 && d2 > 0)) { mc_count("growth_saturates_within_297_repetitions", 1); mc_outcome("growth over 9 repetitions that saturates within 297 (bounded, not a violation)"); }
+        }
+        if (d1 > 0 && d2 > 0) {
                 /* name the allocation site of what accumulates: blocks from the last three repetitions that are still alive */
                 char fn[128] = "unknown_function"; size_t big = 0;
-                for (int i = 0; i < ATAB; i++) if (atab[i].p && atab[i].p != TOMB && atab[i].epoch >= 7 && atab[i].n > big) { big = atab[i].n; pc_function(atab[i].pc, fn, sizeof fn); }
+                for (int i = 0; i < ATAB; i++) if (atab[i].p && atab[i].p != TOMB && atab[i].epoch >= 199 && atab[i].n > big) { big = atab[i].n; pc_function(atab[i].pc, fn, sizeof fn); }
                 char key[200]; snprintf(key, sizeof key, "growth: repeating the same input accumulates blocks allocated in %s", fn);
-                viol(key, "live heap bytes after 3/6/9 repetitions: %zu/%zu/%zu (+%ld per 3 repetitions), cached pages %u/%u/%u, networks %u/%u/%u | %s",
+                viol(key, "live heap bytes after 99/198/297 repetitions: %zu/%zu/%zu (+%ld per 99 repetitions), cached pages %u/%u/%u, networks %u/%u/%u | %s",
                              g[0].bytes, g[1].bytes, g[2].bytes, d1, g[0].pages, g[1].pages, g[2].pages, g[0].nets, g[1].nets, g[2].nets, what);
         }
         if (g[2].pages > g[1].pages && g[1].pages > g[0].pages && g[2].pages - g[1].pages == g[1].pages - g[0].pages)
@@ -980,7 +993,7 @@ int main(int argc, char **argv)
 
         char bound[1400]; size_t o = 0;
         for (int i = 0; i < NLY; i++) o += snprintf(bound + o, sizeof bound - o, "%slayer %s: %d letters, depth %d", i ? "; " : "", LY[i].name, LY[i].n, LY[i].depth[thorough]);
-        o += snprintf(bound + o, sizeof bound - o, "; storyline orders: every order of the page transmissions of each storyline (up to 7 transmissions, thorough 8: all permutations; more: all rotations and exchanges of two); byte exhaustive: %d (state,packet) targets of %d storylines x 42 positions x 256 values; caption: %d states x 2 fields x 65536 pairs; growth: %d storylines + all %d-letter sequences over %d letters, 9 repetitions; held page: 3 storylines x 2 levels x 10 disturbances x 2 uses; XDS: 96 (class,type) x 11 lengths x %d values x 2 patterns; ITV: 8 strings x every position x 96 characters; all 65536 WSS words, 256 CPR-1204 bytes, VPS 3 bases x 13 bytes x 256; aux IDL/PFC: 3 packets x 42 x 256",
+        o += snprintf(bound + o, sizeof bound - o, "; storyline orders: every order of the page transmissions of each storyline (up to 7 transmissions, thorough 8: all permutations; more: all rotations and exchanges of two); byte exhaustive: %d (state,packet) targets of %d storylines x 42 positions x 256 values; caption: %d states x 2 fields x 65536 pairs; growth: %d storylines + all %d-letter sequences over %d letters, 9 repetitions (linear growth confirmed over 297 repetitions before it is reported); held page: 3 storylines x 2 levels x 10 disturbances x 2 uses; XDS: 96 (class,type) x 11 lengths x %d values x 2 patterns; ITV: 8 strings x every position x 96 characters; all 65536 WSS words, 256 CPR-1204 bytes, VPS 3 bases x 13 bytes x 256; aux IDL/PFC: 3 packets x 42 x 256",
                       NTG, NST, n_cc_states, NST, grow_len, NGROW, thorough ? 96 : 9);
         mc_meta("bound", "%s", bound);
         mc_note("alphabet: %d letters (%d Teletext packets, %d caption/XDS/ITV, %d misc, %d read side)", NLT, NPKT, LT_CC1 - LT_CC0, LT_MISC1 - LT_MISC0, LT_READ1 - LT_READ0);
